@@ -166,6 +166,24 @@ def gen(rng, tier):
         cases.append(make_case(rng, k + rng.randint(1, 3), k, rng.choice([2, 3]), rng.choice(["f64", "f32"]),
                                rng.random() < 0.5, rng.choice(KINDS), rng.randint(0, 5), rng.choice("dz"), rng.random() < 0.5))
     groups.append(("minimal-clouds", cases))
+    cases = []
+    # the same surfaces at other length scales (a part scanned in millimetres, a site surveyed in hundreds of metres):
+    # normals and curvature are scale invariant, absolute thresholds on variances are not
+    for ty in ("f64", "f32"):
+        for hom in (False, True):
+            for sc in (1e-3, 1e-2, 1e2):
+                for rep in range(3 if big else 1):
+                    dim = rng.choice([2, 3])
+                    kind = rng.choice(["plane-exact", "plane-noisy", "piecewise", "noisy"])
+                    k = rng.randint(4, 15)
+                    n = rng.randint(k + 10, 150)
+                    P, meta = gen_cloud(rng, n, dim, kind)
+                    P = [[x * sc for x in p] for p in P]
+                    if meta != "-":
+                        mv = [float(v) for v in meta.split(",")]
+                        meta = ",".join(repr(v) for v in mv[:-1] + [mv[-1] * sc])
+                    cases.append(make_case(rng, n, k, dim, ty, hom, kind, rng.randint(2, 5), rng.choice("dz"), False, cloud=(P, meta)))
+    groups.append(("other-length-scales", cases))
     return groups
 
 
